@@ -595,10 +595,11 @@ impl<'tcx> Cx<'tcx> {
                 use rustc_middle::ty::adjustment::Adjust;
                 let c = match a.kind {
                     Adjust::Deref(..) => "D",
-                    Adjust::Borrow(..) => "B",
+                    Adjust::Borrow(b) => {
+                        if format!("{:?}", b).contains("Mut") { "M" } else { "B" }
+                    }
                     Adjust::Pointer(..) => "P",
                     Adjust::NeverToAny => "N",
-                    _ => "O",
                 };
                 s.push_str(c);
             }
